@@ -47,6 +47,37 @@ def formulaWithDots (norm : List Char → Except PyErr (List Char))
     Except ParseErr Val :=
   formulaOfString {} (pyEnv norm codes available) cs
 
+/-! ## one context, several parses
+
+`FormulaParser.parse(formula, context=ctx)` evaluates the tree in
+`LayeredMapping(ctx, parser.context)`: a FRESH layer over the caller's context and the parser's own.
+Everything a parse writes (`__formulaic_variables_used_lhs__`) lands in the mutations of that fresh
+layer; the caller's context — the materializer's `layered_context`, or a mapping the caller passes to
+several parses — is only read. -/
+
+/-- what a context offers to `.`: `__formulaic_variables_available__` when some layer holds it
+(`explicit`), else the keys of the layer called `data` -/
+def availableIn {ν : Type} (explicit : Option (List String)) (l : LMap.Layer ν) : Option (List String) :=
+  match explicit with
+  | some a => some a
+  | none => ((namedLayers l).lookup "data").map LMap.Layer.keys
+
+/-- one call of `parse`: the result, and the caller's context afterwards -/
+def parseCall {ν : Type} (norm : List Char → Except PyErr (List Char))
+    (codes : List (String × Option PyCode)) (explicit : Option (List String))
+    (own caller : LMap.Layer ν) (cs : List CharInfo) : Except ParseErr Val × LMap.Layer ν :=
+  (formulaWithDots norm codes (availableIn explicit (.lm none [] [caller, own])) cs, caller)
+
+/-- a history of parses that are all handed the same context object -/
+def parseHistory {ν : Type} (norm : List Char → Except PyErr (List Char))
+    (codes : List (String × Option PyCode)) (explicit : Option (List String)) (own : LMap.Layer ν) :
+    LMap.Layer ν → List (List CharInfo) → List (Except ParseErr Val) × LMap.Layer ν
+  | caller, [] => ([], caller)
+  | caller, cs :: rest =>
+    let r := parseCall norm codes explicit own caller cs
+    let rs := parseHistory norm codes explicit own r.2 rest
+    (r.1 :: rs.1, rs.2)
+
 /-- the factor of a parsed term as the materializer evaluates it -/
 def pfactorOf (codes : List (String × Option PyCode)) (f : Factor) : PFactor :=
   { expr := f.expr,
